@@ -182,9 +182,13 @@ def validate(pid, traces, prop=None, spec="Trace"):
 
 
 # ----------------------------------------------------------------------------- design models
-def tlc_model(module, cfg, dom, workers=None, timeout=3000, env=None, simulate=None):
-    """run a design model (tla/mc/<module>.tla) with TLC.  Returns dict(ok, states, transitions, out)"""
-    mdir = os.path.join(TLA, "mc")
+def tlc_model_dir(subdir, module, cfg, dom, workers=None, timeout=3000):
+    return tlc_model(module, cfg, dom, workers=workers, timeout=timeout, subdir=subdir)
+
+
+def tlc_model(module, cfg, dom, workers=None, timeout=3000, env=None, simulate=None, subdir="mc"):
+    """run a design model (tla/<subdir>/<module>.tla) with TLC.  Returns dict(ok, states, transitions, out)"""
+    mdir = os.path.join(TLA, subdir)
     meta = os.path.join(WORK, "meta_" + module + "_" + os.path.basename(cfg) + "_%d" % os.getpid())
     e = {"TLCJ_GC": "-XX:+UseParallelGC", "TLCJ_XMX": "-Xmx6g"}
     if env:
@@ -207,6 +211,26 @@ def tlc_model(module, cfg, dom, workers=None, timeout=3000, env=None, simulate=N
         raise ToolError("TLC error on design model %s/%s:\n%s" % (module, cfg, out[-3000:]))
     return dict(ok=ok, violated=violated, states=int(st.group(2)) if st else 0,
                 transitions=int(st.group(1)) if st else 0, out=out)
+
+
+def apalache(module, cinit, inv, length=0, timeout=600, cwd=None):
+    """Apalache bounded/inductive check of a design lemma.  Returns dict(result, note)."""
+    cwd = cwd or os.path.join(TLA, "apa")
+    out = os.path.join(WORK, "apalache_%d" % os.getpid())
+    cmd = ["apalache-mc", "check", "--cinit=" + cinit, "--inv=" + inv, "--length=%d" % length, "--out-dir=" + out, module]
+    t0 = time.time()
+    try:
+        p = run(cmd, cwd=cwd, timeout=timeout, check=False)
+    except subprocess.TimeoutExpired:
+        shutil.rmtree(out, ignore_errors=True)
+        return dict(result="timeout", note="apalache timed out after %ds" % timeout, wall=time.time() - t0)
+    shutil.rmtree(out, ignore_errors=True)
+    o = p.stdout
+    if "EXITCODE: OK" in o and "no error" in o.lower():
+        return dict(result="ok", wall=time.time() - t0)
+    if "EXITCODE: ERROR (12)" in o or "violat" in o.lower():
+        return dict(result="violated", detail=o[-3000:], wall=time.time() - t0)
+    raise ToolError("apalache failed on %s %s %s:\n%s" % (module, cinit, inv, o[-3000:]))
 
 
 # ----------------------------------------------------------------------------- findings / evidence
